@@ -11,6 +11,10 @@ fn random_float(min: Value, max: Value) -> Resolved {
     if max <= min {
         return Err("max must be greater than min".into());
     }
+    // the uniform sampler needs finite bounds and a finite width
+    if !(max - min).is_finite() {
+        return Err("min and max must be finite and at most f64::MAX apart".into());
+    }
 
     let f: f64 = rand::rng().random_range(min..max);
 
